@@ -159,7 +159,7 @@ def run(ctx):
     slow = {'cross', 'cross_vld', 'cross_act', 'als', 'als_w', 'als_vld', 'als_adapt', 'als_func', 'als_func_vld', 'als_func_nolamb',
             'anova2', 'optima_qtt', 'sample_square', 'svd_incomplete', 'ANOVA_call'}
     for name in names:
-        cls = 'pass' if RG.base_name(name) in RG.PASS_THROUGH else 'pure'
+        cls = 'pass' if name in RG.PASS_THROUGH else 'pure'
         lays = RG.LAYOUTS if not quick else ['asbuilt', 'ro', RG.LAYOUTS[1 + (hash(name) % 4)]]
         nh = (6 if name in slow else 14) if quick else (25 if name in slow else len(hists))
         pick = [hists[j] for j in rng.permutation(len(hists))[:nh]]
